@@ -14,6 +14,45 @@ CHECKS = {
         "plus a CLI sub-bound on real files through `gwf status`/`gwf run` with a simulated Slurm. Compared with ref.plan.up_to_date / ref.plan.plan.",
         note="Trusted: the reference model mc/ref/plan.py (25 lines, written from the statement), os.utime-stamped real files for the CLI part, the Slurm simulator for counting submissions.",
     ),
+    "C02": dict(
+        level="exploration", design="§4 C02",
+        technique="bounded-exhaustive enumeration: all labelled DAGs x backend-state vectors x freshness x selections, submission sequence compared with a reference plan",
+        text="All 25 labelled DAGs on 3 targets (thorough: + all 543 on 4 with reduced alphabets) x 6^n backend-state vectors x 3^n freshness x a selection alphabet "
+        "(default, name subsets, fnmatch patterns, non-matching), plus all valid 2-target/3-file workflows x file states x backend vectors, through the real filter_names + "
+        "submit_workflow over a real TrackingBackend whose tracked file is written and re-read. Oracle on the submission *sequence*: set, multiplicity, order, exact prerequisite ids, tracked file.",
+        note="Trusted: mc/ref/plan.py; scheduler answers are injected at TrackingBackend's ops interface (CLI-level agreement is C05/C08).",
+    ),
+    "C03": dict(
+        level="exploration", design="§4 C03",
+        technique="bounded-exhaustive enumeration of path spellings / working dirs / shapes / definition orders against an independent relational oracle",
+        text="Pair family: every (output spelling x input spelling) over 8 spellings x working-dir configs (absolute/relative, nested) x file location x 5 container shapes x 3 definition orders; "
+        "all-workflows family: every role assignment of 3 files to n<=3 targets with unique producers and no cycle x rotating spelling assignments x all n! definition orders; "
+        "CLI sub-bound through `gwf info` JSON. Oracle: ref.graph.relations over ref.paths (own lexical normaliser): dependencies, dependents (inverse), provides, unresolved, endpoints.",
+        note="Lexical normalisation only (no symlinks); leading '//' excluded (implementation-defined in POSIX).",
+    ),
+    "C04": dict(
+        level="exploration", design="§4 C04",
+        technique="bounded-exhaustive enumeration of all target sets over a small file pool + parametric ring/chain sweeps + CLI side-effect snapshots",
+        text="All target sets of n<=3 targets over m=2 files (thorough m=3, and n=4/m=2) with arbitrary input/output subsets (self loops, 2/3-cycles, duplicate producers also across spellings, missing sources, all combinations) "
+        "x existing-file subsets x all definition orders: accepted iff ref classification empty, else the raised error kind must apply. k-rings k=2..8 at every rotation with the acyclic part defined first; chains to 2000 (thorough 5000) "
+        "through graph/dfs/status/submit/touch; CLI: 6 ill-formed workflows x 10 commands: non-zero exit, Error: line, no traceback, world + scheduler journal unchanged.",
+        note="'any size' is a sweep to the stated maximum, not a proof.",
+    ),
+    "C05": dict(
+        level="model_checking", design="§4 C05",
+        technique="explicit-state BFS over world states; every transition executes the real gwf CLI in-process against simulated schedulers; relational + frame-condition oracle in every state",
+        text="BFS (depth 2-4 quick, 4-6 thorough) from empty and fully-built projects of the fork/chain/diamond workflows on slurm (accounting on/off), sge, lsf, hashing on/off, under "
+        "{run, run X, job start/finish-ok/finish-fail/cancel/forget, modify source, delete output}. In every state: status rows in cone(R) that are shouldrun/failed/cancelled = 'Would submit' set of run -d R = "
+        "submissions journaled by run R for every selection R; 14 filter/format combinations equal the restriction/counts of the full table; after status and run -d the scheduler journal has no submit/cancel and the semantic snapshot is unchanged.",
+        note="Scheduler simulators are an assumption; local backend covered by the pool checks.",
+    ),
+    "C08": dict(
+        level="model_checking", design="§4 C08",
+        technique="exhaustive state-code table sweep + squeue x sacct matrix + explicit-state BFS over invocation histories with a reference view of the scheduler's job table",
+        text="Every documented state code (24 squeue, 16 sacct incl. 'CANCELLED by', 11 LSF, 19 SGE) as the tracked job's state x file state with prefix-related ids and foreign jobs in the queue; the full squeue x sacct x accounting matrix incl. 'sacct never called when off'; "
+        "1..2049 tracked jobs; BFS over histories (run, run X, scheduler transitions, queue forget, lagging accounting, source modification) checking in every state, from a separate invocation, that each row equals the class of the scheduler-visible state of the job accepted at the target's last submission and that the tracked file names exactly those ids.",
+        note="State-code classes are my reading of the scheduler documentation (permitted sets where the statement is silent). Local pool restarts: see C13/C14 and DESIGN D7.",
+    ),
 }
 
 PENDING = {
